@@ -15,6 +15,7 @@ import (
 	"regexp/syntax"
 	"sort"
 	"strings"
+	"unicode"
 
 	"golang.org/x/tools/go/ssa"
 )
@@ -66,6 +67,9 @@ type E7Spec struct {
 	FieldStores   []FieldStoreSpec   `json:"forbidden_field_stores"`
 	RenderOnce    []RenderOnceSpec   `json:"render_once"`
 	CrossProduct  []FuncRuleSpec     `json:"cross_product"`
+	TextIdentity  []TextIdentitySpec `json:"text_identity"`
+	GrownRanged   []FuncRuleSpec     `json:"grown_while_ranged"`
+	AppendOnly    []AppendOnlySpec   `json:"append_only"`
 }
 
 type FuncRuleSpec struct {
@@ -248,6 +252,15 @@ func runE7(p *Program, sp *Spec, c *Collector) {
 	}
 	for _, cp := range t.CrossProduct {
 		runCrossProduct(p, c, cp)
+	}
+	for _, ti := range t.TextIdentity {
+		runTextIdentity(p, c, ti)
+	}
+	for _, gr := range t.GrownRanged {
+		runGrownWhileRanged(p, c, gr)
+	}
+	for _, ao := range t.AppendOnly {
+		runAppendOnly(p, c, ao)
 	}
 	for _, n := range t.NoExit {
 		runNoExit(p, sp, c, n)
@@ -2713,7 +2726,19 @@ func runTrimCutset(p *Program, c *Collector, a FuncRuleSpec) {
 				n++
 				key := fmt.Sprintf("trimcutset:%s %s#%d", p.FuncKey(fn), name, k)
 				if cs, isC := constString(call.Call.Args[1]); isC {
-					c.Ob(a.Props, "E7.trim-cutset", key, Discharged, fmt.Sprintf("constant character set %q", cs), p.InstrPos(call), true)
+					// a constant that reads as a word ("this.", "src/") is a prefix spelled as a character set all the same:
+					// character sets are blanks, quotes and punctuation
+					letters := 0
+					for _, r := range cs {
+						if unicode.IsLetter(r) {
+							letters++
+						}
+					}
+					if letters >= 2 {
+						c.Ob(a.Props, "E7.trim-cutset", key, Violated, fmt.Sprintf("%s: %s is given the word %q as its character set: every leading/trailing character that occurs in it is removed, not the prefix/suffix (this.store with the set \"this.\" becomes ore)", a.What, name, cs), p.InstrPos(call), false)
+					} else {
+						c.Ob(a.Props, "E7.trim-cutset", key, Discharged, fmt.Sprintf("constant character set %q", cs), p.InstrPos(call), true)
+					}
 				} else {
 					c.Ob(a.Props, "E7.trim-cutset", key, Violated, a.What+": "+name+" is given a variable as its character set: every leading/trailing character of the text that occurs anywhere in it is removed, not the prefix/suffix (tree/ee/Tree.java with the set \"tree/\" becomes Tree.java)", p.InstrPos(call), false)
 				}
